@@ -148,7 +148,9 @@ def seipd(rep, prog):
         its = split_items(a[0])
         mdcs = [n for n in taint.objects(s) if taint.obj_of_class(s, n, 'MDC')]
         ser = ['%s.__bytes__()' % n for n in mdcs] + ['%s.__bytearray__()' % n for n in mdcs] + list(mdcs)     # bytes(mdc) renders as the object
-        ok = len(mdcs) == 1 and its[:3] == PREFIX and len(its) == 4 and its[3] in ser and len(taint.draws(s, 'gen_iv')) == 1
+        IV = taint.random_prefix(its, 'alg', 'data')
+        PREFIX = its[:3] if IV is not None else PREFIX
+        ok = len(mdcs) == 1 and IV is not None and len(its) == 4 and its[3] in ser and taint.n_draws(s) == 1
         rep.check(ok and a[1] == 'key' and a[2] == 'alg' and (a[3] in (None, 'None')) and not enc[0][2], 'C03.2', W, 'plaintext %s' % a[0],
                   'plaintext = random block || its last two octets || data || MDC packet, encrypted under (key, alg) with zero IV',
                   where=fi.where, expected=' '.join(PREFIX) + ' <MDC>.__bytes__()', found=enc[0][1])
@@ -247,8 +249,8 @@ def skesk(rep, prog):
                ((e[2] == ['packet'] and e[3] == {'iv': 'False'}) or (e[2] == ['packet', 'False'] and not e[3]))]
         take = sl('packet', ('', lin_add('self.header.length', 'len(self.s2k)', -1)))
         ct = [i for i, e in enumerate(ev) if _store(e, 'self.ct') and e[2] == take]
-        dl = [i for i, e in enumerate(ev) if e[0] == 'del' and e[1] == take]
-        ok = len(ins) == 1 and len(s2k) == 1 and len(ct) == 1 and len(dl) == 1 and ins[0] < s2k[0] < ct[0] < dl[0]
+        dl = [i for i, e in enumerate(ev) if (e[0] == 'del' and e[1] == take) or (_store(e, take) and e[2] in ('C()', "''", ''))]   # del b[:n] / b[:n] = b''
+        ok = len(ins) == 1 and len(s2k) == 1 and len(ct) == 1 and len(dl) == 1 and ins[0] < s2k[0] < ct[0] <= dl[0] + 1
         rep.check(ok, 'C03.3', 'SKESessionKeyV4.parse', 'usage octet re-inserted, no IV, remainder = header.length - len(s2k)',
                   'the reader must mirror the writer: one synthetic usage octet stands in for the version octet', where=cp.where,
                   expected='packet.insert(0, 255); s2k.parse(packet, iv=False); ct = packet[:header.length - len(s2k)] (consumed)',
@@ -399,6 +401,6 @@ def compression(rep, prog):
         rep.saw(fn=f)
         for m, pair in table.items():
             outs = run_roles(prog, f, ('self', 'data'), args={'self': enum_const(prog, 'CompressionAlgorithm', m)})
-            rets = sorted(set(render(s.ret) for s in outs if s.raised is None))
+            rets = sorted(set(render(s.ret).replace(', wbits=', ', ') for s in outs if s.raised is None))      # zlib.decompress(data, wbits=-15)
             rep.check(rets == [pair[idx]], 'C03.6', 'CompressionAlgorithm.%s' % name, '%s -> %s' % (m, rets),
                       '%s arm of %s must be the inverse of its sibling' % (name, m), where=f.where, expected=pair[idx], found=rets, scenario=m)
